@@ -25,6 +25,7 @@ type c07Bounds struct {
 	// metacharacter strings up to these lengths are moved across the boundary
 	PadMetaFull, PadMetaCore int
 	PadFull                  bool // the larger set of paddings and pad schedules
+	Esc                      c07EscBounds
 }
 
 // c07Schedules enumerates the schedules of family fam for an input of n bytes.
@@ -222,11 +223,16 @@ func c07(c *vc.Ctx) {
 		PadMetaFull: vc.Pick(c, 1, 2),
 		PadMetaCore: vc.Pick(c, 2, 3),
 		PadFull:     !c.Quick(),
+		Esc: c07EscBounds{
+			MaxRun: vc.Pick(c, 7, 9),
+			Before: vc.Pick(c, []string{""}, []string{"", "a"}),
+			Second: vc.Pick(c, 3, len(c07EscSecond)),
+		},
 	}
 	space := synSpace{Depth: 1, CoreOnly: true, LayoutDepth: vc.Pick(c, 0, 1), Corpus: true, AllVariantsDeep: true, Variants: []string{"bash"}}
 	padKinds := c07PadKinds(b.PadFull)
-	c.Rule = "inputs: " + space.describe() + fmt.Sprintf(" (every program in all 5 variants, valid and erroring pairs alike); plus every byte string of length <=%d over %q and of length <=%d over %q, plus %d hand-written lookahead shapes, each in all 5 variants. Reader schedules per input of n bytes (all legal io.Reader behaviours): n<=%d: all 2^(n-1) chunkings; longer: all-at-once, 1/2/3-byte readers, every single split point, and for n<=%d every pair of split points; a (0,nil) read after every prefix delivered at once, before every byte of the 1-byte reader, for n<=%d at each single position of the 1-byte reader, and for n<=%d at every gap of every chunking; the chunkings, single splits, k-byte readers and (for n<=%d) the (0,nil) schedules also with io.EOF returned together with the last bytes; inputs of <=%d bytes (strings over the full/core alphabet: <=%d/%d, all hand-written shapes) preceded by l bytes of padding (%s) for every l that puts some byte of the input at offset bufSize-2..bufSize+2 of the parser's %d-byte read buffer, compared with the all-at-once parse of the same padded bytes under: full buffer then 1-byte reads, full buffer then 2-byte reads, an empty read after the full buffer, io.EOF with the last bytes, a full buffer then every split point of what follows%s. The single-gap layout deviations longer than that get the lighter set: all-at-once, 1/2/3-byte readers, single splits, a (0,nil) read first and before every byte of the 1-byte reader, and io.EOF-with-data for all-at-once and the k-byte readers. Oracle: error string, else tree dump with positions and comments, identical to the strings.Reader parse of the same bytes. distinct = distinct (variant, input) pairs, parsing and erroring counted apart",
-		b.MetaFull, strings.Join(c07MetaFull, ""), b.MetaCore, strings.Join(c07MetaCore, ""), len(c07Seeds), b.AllChunk, b.TwoSplit, min(b.ZeroFull, 999), b.ZeroAll, min(b.ZeroFull, 999), b.PadSyn, b.PadMetaFull, b.PadMetaCore, strings.Join(padKinds, " / "), c07BufSize,
+	c.Rule = "inputs: " + space.describe() + fmt.Sprintf(" (every program in all 5 variants, valid and erroring pairs alike); plus every byte string of length <=%d over %q and of length <=%d over %q, plus %d hand-written lookahead shapes, plus %s (those with at most one follower symbol also through the buffer-boundary family), each in all 5 variants. Reader schedules per input of n bytes (all legal io.Reader behaviours): n<=%d: all 2^(n-1) chunkings; longer: all-at-once, 1/2/3-byte readers, every single split point, and for n<=%d every pair of split points; a (0,nil) read after every prefix delivered at once, before every byte of the 1-byte reader, for n<=%d at each single position of the 1-byte reader, and for n<=%d at every gap of every chunking; the chunkings, single splits, k-byte readers and (for n<=%d) the (0,nil) schedules also with io.EOF returned together with the last bytes; inputs of <=%d bytes (strings over the full/core alphabet: <=%d/%d, all hand-written shapes and the escape-dense inputs just named whatever their length) preceded by l bytes of padding (%s) for every l that puts some byte of the input at offset bufSize-2..bufSize+2 of the parser's %d-byte read buffer, compared with the all-at-once parse of the same padded bytes under: full buffer then 1-byte reads, full buffer then 2-byte reads, an empty read after the full buffer, io.EOF with the last bytes, a full buffer then every split point of what follows%s. The single-gap layout deviations longer than that get the lighter set: all-at-once, 1/2/3-byte readers, single splits, a (0,nil) read first and before every byte of the 1-byte reader, and io.EOF-with-data for all-at-once and the k-byte readers. Oracle: error string, else tree dump with positions and comments, identical to the strings.Reader parse of the same bytes. distinct = distinct (variant, input) pairs, parsing and erroring counted apart",
+		b.MetaFull, strings.Join(c07MetaFull, ""), b.MetaCore, strings.Join(c07MetaCore, ""), len(c07Seeds), c07EscDescribe(b.Esc), b.AllChunk, b.TwoSplit, min(b.ZeroFull, 999), b.ZeroAll, min(b.ZeroFull, 999), b.PadSyn, b.PadMetaFull, b.PadMetaCore, strings.Join(padKinds, " / "), c07BufSize,
 		vc.Pick(c, "", "; for programs and hand-written shapes also the 1-byte reader throughout, the padding alone then the input at once / byte by byte, and every split point inside the input with an otherwise unconstrained buffer"))
 	c.Assumptions = []string{
 		"the reference is Parse over strings.NewReader (every Read fills the buffer offered, io.EOF alone afterwards)",
@@ -274,6 +280,13 @@ func c07(c *vc.Ctx) {
 			one(s, "seed", 0, 1<<30)
 		}
 		one("", "seed", 0, 0)
+		c07EscInputs(b.Esc, func(src string, pad bool) {
+			pm := 0
+			if pad {
+				pm = 1 << 30
+			}
+			one(src, "esc", 0, pm)
+		})
 		enum.Strings(c07MetaFull, b.MetaFull, func(s string) {
 			pm := 0
 			if utf8.RuneCountInString(s) <= b.PadMetaFull {
